@@ -256,5 +256,5 @@ func buildC01(cfg *mon.Config) []*mon.Sub {
 		},
 		Exec: c01Exec, Sample: c01Sample,
 	}
-	return []*mon.Sub{typed, shape, small, long}
+	return []*mon.Sub{typed, shape, small, long, c01FxSub(cfg)}
 }
